@@ -317,3 +317,44 @@ pub fn slot_check_decode(kind: Kind, k: usize, r: usize, b: usize, adds: &[Add],
     }
     Ok(None)
 }
+
+// ======================================================================
+// The ancestor release reed-solomon-16 0.1.0 as a foreign node (C02: shards interoperate across releases;
+// for shard sizes that are multiples of 64 the bytes are equal)
+
+pub fn ancestor_encode(high: bool, k: usize, r: usize, originals: &[Vec<u8>]) -> Result<Vec<Vec<u8>>, String> {
+    use reed_solomon_16::engine::NoSimd;
+    use reed_solomon_16::rate::{HighRateEncoder, LowRateEncoder, RateEncoder};
+    fn go<T: RateEncoder<NoSimd>>(k: usize, r: usize, originals: &[Vec<u8>]) -> Result<Vec<Vec<u8>>, String> {
+        let mut enc = T::new(k, r, originals[0].len(), NoSimd::new(), None).map_err(|e| format!("ancestor new: {e:?}"))?;
+        for o in originals {
+            enc.add_original_shard(o).map_err(|e| format!("ancestor add: {e:?}"))?;
+        }
+        let res = enc.encode().map_err(|e| format!("ancestor encode: {e:?}"))?;
+        Ok(res.recovery_iter().map(<[u8]>::to_vec).collect())
+    }
+    if high {
+        go::<HighRateEncoder<NoSimd>>(k, r, originals)
+    } else {
+        go::<LowRateEncoder<NoSimd>>(k, r, originals)
+    }
+}
+
+pub fn ancestor_decode(high: bool, k: usize, r: usize, b: usize, adds: &[Add]) -> Result<BTreeMap<usize, Vec<u8>>, String> {
+    use reed_solomon_16::engine::NoSimd;
+    use reed_solomon_16::rate::{HighRateDecoder, LowRateDecoder, RateDecoder};
+    fn go<T: RateDecoder<NoSimd>>(k: usize, r: usize, b: usize, adds: &[Add]) -> Result<BTreeMap<usize, Vec<u8>>, String> {
+        let mut dec = T::new(k, r, b, NoSimd::new(), None).map_err(|e| format!("ancestor new: {e:?}"))?;
+        for a in adds {
+            let res = if a.is_rec { dec.add_recovery_shard(a.index, &a.data) } else { dec.add_original_shard(a.index, &a.data) };
+            res.map_err(|e| format!("ancestor add: {e:?}"))?;
+        }
+        let res = dec.decode().map_err(|e| format!("ancestor decode: {e:?}"))?;
+        Ok(res.restored_original_iter().map(|(i, s)| (i, s.to_vec())).collect())
+    }
+    if high {
+        go::<HighRateDecoder<NoSimd>>(k, r, b, adds)
+    } else {
+        go::<LowRateDecoder<NoSimd>>(k, r, b, adds)
+    }
+}
